@@ -213,7 +213,7 @@ where
 
         let gcd = integer::gcd(sample_rate_input, sample_rate_output);
         let min_chunk_in = sample_rate_input / gcd;
-        let fft_chunks = (chunk_size_in as f32 / min_chunk_in as f32).ceil() as usize;
+        let fft_chunks = ((chunk_size_in as f32 / min_chunk_in as f32).ceil() as usize).max(1);
         let fft_size_out = fft_chunks * sample_rate_output / gcd;
         let fft_size_in = fft_chunks * sample_rate_input / gcd;
 
@@ -346,7 +346,7 @@ where
         let gcd = integer::gcd(sample_rate_input, sample_rate_output);
         let min_chunk_out = sample_rate_output / gcd;
         let wanted_subsize = chunk_size_out / sub_chunks;
-        let fft_chunks = (wanted_subsize as f32 / min_chunk_out as f32).ceil() as usize;
+        let fft_chunks = ((wanted_subsize as f32 / min_chunk_out as f32).ceil() as usize).max(1);
         let fft_size_out = fft_chunks * sample_rate_output / gcd;
         let fft_size_in = fft_chunks * sample_rate_input / gcd;
 
@@ -533,7 +533,7 @@ where
         let gcd = integer::gcd(sample_rate_input, sample_rate_output);
         let min_chunk_in = sample_rate_input / gcd;
         let wanted_subsize = chunk_size_in / sub_chunks;
-        let fft_chunks = (wanted_subsize as f32 / min_chunk_in as f32).ceil() as usize;
+        let fft_chunks = ((wanted_subsize as f32 / min_chunk_in as f32).ceil() as usize).max(1);
         let fft_size_out = fft_chunks * sample_rate_output / gcd;
         let fft_size_in = fft_chunks * sample_rate_input / gcd;
 
